@@ -20,6 +20,7 @@ type pcNode struct {
 	t    *Term
 	prev *pcNode
 	n    int
+	br   bool // a branch decision (as opposed to an assumed fact)
 }
 
 type ghostNode struct {
@@ -54,6 +55,19 @@ func (st State) assume(t *Term) State {
 	return st
 }
 
+// branch records a control-flow decision.
+func (st State) branch(t *Term) State {
+	if t.IsTrue() {
+		return st
+	}
+	n := 1
+	if st.pc != nil {
+		n = st.pc.n + 1
+	}
+	st.pc = &pcNode{t: t, prev: st.pc, n: n, br: true}
+	return st
+}
+
 func (st State) pcList() []*Term {
 	var out []*Term
 	for p := st.pc; p != nil; p = p.prev {
@@ -84,6 +98,71 @@ func (st State) known(t *Term) (bool, bool) {
 		}
 	}
 	return false, false
+}
+
+// tagAlternatives looks for a path-condition conjunct restricting a type tag to a set of
+// constants (tag == c, or a disjunction of such equalities possibly conjoined with more).
+func (st State) tagAlternatives(tag *Term) map[uint64]bool {
+	isEq := func(t *Term) (uint64, bool) {
+		if t.Op == OEq && (t.Args[0] == tag && t.Args[1].IsConst() || t.Args[1] == tag && t.Args[0].IsConst()) {
+			if t.Args[0] == tag {
+				return t.Args[1].C, true
+			}
+			return t.Args[0].C, true
+		}
+		return 0, false
+	}
+	var best map[uint64]bool
+	var work []*Term
+	for p := st.pc; p != nil; p = p.prev {
+		work = append(work, p.t)
+	}
+	for len(work) > 0 {
+		t := work[len(work)-1]
+		work = work[:len(work)-1]
+		if t.Op == OImp {
+			if v, ok := st.known(t.Args[0]); ok && v {
+				if t.Args[1].Op == OAnd {
+					work = append(work, t.Args[1].Args...)
+				} else {
+					work = append(work, t.Args[1])
+				}
+			}
+			continue
+		}
+		if v, ok := isEq(t); ok {
+			return map[uint64]bool{v: true}
+		}
+		if t.Op != OOr {
+			continue
+		}
+		set := map[uint64]bool{}
+		ok := true
+		for _, d := range t.Args {
+			if v, y := isEq(d); y {
+				set[v] = true
+				continue
+			}
+			found := false
+			if d.Op == OAnd {
+				for _, cj := range d.Args {
+					if v, y := isEq(cj); y {
+						set[v] = true
+						found = true
+						break
+					}
+				}
+			}
+			if !found {
+				ok = false
+				break
+			}
+		}
+		if ok && (best == nil || len(set) < len(best)) {
+			best = set
+		}
+	}
+	return best
 }
 
 func (e *Exec) knownCond(st State, t *Term) (bool, bool) {
@@ -248,6 +327,10 @@ type Exec struct {
 	stack      []*ssa.Function
 	forceInline bool
 	noCut      bool
+	globalList []*Region
+	initMode   bool
+	rootDet    *cval
+	mute       int
 	steps      int
 	maxSteps   int
 	noDecr     []string
@@ -372,6 +455,9 @@ func (e *Exec) loadFrom(h [4]*HeapLayer, a *Term, T types.Type) Val {
 }
 
 func (e *Exec) load(st State, a *Term, T types.Type) (State, Val) {
+	if e.initMode && strings.HasSuffix(addrRoot(a).Name, ".init$guard") {
+		return st, Val{e.c.False}
+	}
 	if e.constGlobals[addrRoot(a)] {
 		// immutable package-level variable: read the initial heap
 		return st, e.loadFrom(e.initState().h, a, T)
@@ -595,6 +681,10 @@ func (e *Exec) oblige(st State, fn *ssa.Function, kind, label string, pos token.
 	if st.pcFalse() {
 		return st
 	}
+	if e.mute > 0 {
+		// pure evaluation inside a contract expression: the callee is verified on its own
+		return st.assume(goal)
+	}
 	fname := "?"
 	if fn != nil {
 		fname = fn.String()
@@ -750,8 +840,8 @@ func (e *Exec) execFrom(fr *Frame, st State, b *ssa.BasicBlock, prev *ssa.BasicB
 				e.fail("path budget exceeded in %s", e.rootFn)
 			}
 			fr2 := fr.clone()
-			o1 := e.execFrom(fr, st.assume(cond), b.Succs[0], b, 0)
-			o2 := e.execFrom(fr2, st.assume(e.c.Not(cond)), b.Succs[1], b, 0)
+			o1 := e.execFrom(fr, st.branch(cond), b.Succs[0], b, 0)
+			o2 := e.execFrom(fr2, st.branch(e.c.Not(cond)), b.Succs[1], b, 0)
 			return append(o1, o2...)
 		case *ssa.Jump:
 			return e.execFrom(fr, st, b.Succs[0], b, 0)
@@ -872,7 +962,13 @@ func (e *Exec) globalAddr(g *ssa.Global) *Term {
 		n = 1
 	}
 	e.registerInput(a, c.Const(64, n))
+	e.regions[a].global = true
 	e.axioms = append(e.axioms, c.Ule(c.Const(64, 1), a), c.Ule(c.Add(a, c.Const(64, n)), e.brk0), c.Ult(a, e.brk0))
+	for _, o := range e.globalList {
+		// distinct package-level objects do not overlap
+		e.axioms = append(e.axioms, c.Or(c.Ule(c.Add(a, c.Const(64, n)), o.base), c.Ule(c.Add(o.base, o.size), a)))
+	}
+	e.globalList = append(e.globalList, e.regions[a])
 	// assumed initial values (DESIGN §2.3.8, §2.4.6)
 	if _, isI := T.Underlying().(*types.Interface); isI {
 		tag := c.Select(e.base[3], a)
@@ -914,6 +1010,7 @@ func (e *Exec) strConst(s string) Val {
 	}
 	a := c.Var(fmt.Sprintf("S.%d", len(e.strs)), BV(64))
 	e.registerInput(a, c.Const(64, uint64(len(s))))
+	e.regions[a].global = true
 	e.axioms = append(e.axioms, c.Ule(c.Const(64, 1), a), c.Ule(c.Add(a, c.Const(64, uint64(len(s)))), e.brk0), c.Ult(a, e.brk0))
 	if len(s) <= 64 {
 		for i := 0; i < len(s); i++ {
